@@ -101,17 +101,14 @@ func (mp MerklePath) Pretty() string {
 	return path
 }
 
-// GetKey will return a byte representation of the key
-// after URL escaping the key element
+// GetKey will return a byte representation of the key.
+// Key path elements are stored as they are (see NewMerklePath and ApplyPrefix), so
+// they must not be URL-unescaped here: otherwise "chain%30" and "chain0" name the same key.
 func (mp MerklePath) GetKey(i uint64) ([]byte, error) {
 	if i >= uint64(len(mp.KeyPath)) {
 		return nil, fmt.Errorf("index out of range. %d (index) >= %d (len)", i, len(mp.KeyPath))
 	}
-	key, err := url.PathUnescape(mp.KeyPath[i])
-	if err != nil {
-		return nil, err
-	}
-	return []byte(key), nil
+	return []byte(mp.KeyPath[i]), nil
 }
 
 // Empty returns true if the path is empty
